@@ -21,6 +21,9 @@ func VerifPbGen(name string, depth int, width []int, strLen int) *structpb.Value
 	if depth > 0 {
 		nk = 8
 	}
+	if k := vt.ParamInt("kinds", nk); k < nk {
+		nk = k // a job may restrict the kinds (in the order of the switch below)
+	}
 	w, below := 1, width
 	if len(width) > 0 {
 		w = width[0]
@@ -152,7 +155,10 @@ func VerifPbSameStruct(a, b *structpb.Struct) bool {
 	for k, v := range fa {
 		found := false
 		for k2, v2 := range fb {
-			if k == k2 && VerifPbSame(v, v2) {
+			// the recursive call is made unconditionally (not under the symbolic guard k == k2): the engine
+			// turns loads made under an undecided guard into guarded unions, which `range` cannot iterate
+			sv := VerifPbSame(v, v2)
+			if k == k2 && sv {
 				found = true
 			}
 		}
@@ -183,6 +189,11 @@ func VerifK24bPbValueInjective() {
 	vt.Reach("encoded")
 	if ka == kb {
 		vt.Assert(same, "two semantically different context values have the same key bytes")
+	}
+	// prefix-freeness (what makes the concatenations in Tuple.WriteTo / InvariantCacheKey decodable): the
+	// encoding of one value is a prefix of the encoding of another only if they are the same value
+	if len(ka.data) <= len(kb.data) && kb.data[:len(ka.data)] == ka.data {
+		vt.Assert(same, "the encoding of a context value is a proper prefix of the encoding of a different value")
 	}
 	if same {
 		vt.Assert(ka == kb, "two semantically equal context values have different key bytes")
@@ -219,8 +230,20 @@ type VerifK24Tuple struct {
 
 // VerifK24GenTuple: fields symbolic; condition present or not (fork); context nil or a struct with up to
 // w fields of depth <= depth (fork).
+//
+// fixoru=1 (job parameter): object, relation and user have exactly L symbolic bytes. These three are plain
+// EncodeString fields whose length framing is K24a's subject; with concrete lengths the offsets of the
+// optional condition part, which is what is specific to tuples, stay concrete.
 func VerifK24GenTuple(name string, depth int, width []int, L int) VerifK24Tuple {
-	t := VerifK24Tuple{Obj: vt.String(name+"o", L), Rel: vt.String(name+"r", L), User: vt.String(name+"u", L)}
+	str := func(n string) string {
+		s := vt.String(n, L)
+		if vt.ParamInt("fixoru", 0) == 1 {
+			vt.Assume(len(s) == L)
+			s = s[:L]
+		}
+		return s
+	}
+	t := VerifK24Tuple{Obj: str(name + "o"), Rel: str(name + "r"), User: str(name + "u")}
 	if vt.ForkBool(name + "cond") {
 		t.HasCond = true
 		t.Cond = vt.String(name+"c", L)
@@ -248,13 +271,15 @@ func (t VerifK24Tuple) Key() *openfgav1.TupleKey {
 }
 
 func VerifK24SameTuple(a, b VerifK24Tuple) bool {
-	if a.Obj != b.Obj || a.Rel != b.Rel || a.User != b.User || a.HasCond != b.HasCond {
+	if a.HasCond != b.HasCond {
 		return false
 	}
+	fields := a.Obj == b.Obj && a.Rel == b.Rel && a.User == b.User
 	if !a.HasCond {
-		return true
+		return fields
 	}
-	return a.Cond == b.Cond && VerifPbSameStruct(a.Ctx, b.Ctx)
+	ctx := VerifPbSameStruct(a.Ctx, b.Ctx) // evaluated before any symbolic branch (see VerifPbSameStruct)
+	return fields && a.Cond == b.Cond && ctx
 }
 
 func VerifK24bTupleInjective() {
@@ -279,29 +304,54 @@ func VerifK24bTupleInjective() {
 // one tuple cannot be confused with the start of the next tuple.
 func VerifK24bTupleSequence() {
 	L := vt.ParamInt("str", 2)
-	na, nb := vt.Choose("na", 3), vt.Choose("nb", 3)
+	N := vt.ParamInt("seq", 2)
+	na, nb := vt.Choose("na", N+1), vt.Choose("nb", N+1)
+	// three tuple shapes: no condition / condition with nil context / condition with a one-field context
+	// (the value kinds of contexts are VerifK24bTupleInjective's and VerifK24bPbValueInjective's subject)
+	gen := func(name string) VerifK24Tuple {
+		str := func(n string) string {
+			s := vt.String(n, L)
+			if vt.ParamInt("fixoru", 0) == 1 {
+				vt.Assume(len(s) == L)
+				s = s[:L]
+			}
+			return s
+		}
+		t := VerifK24Tuple{Obj: str(name + "o"), Rel: str(name + "r"), User: str(name + "u")}
+		switch vt.Choose(name+"shape", 3) {
+		case 1:
+			t.HasCond, t.Cond = true, vt.String(name+"c", L)
+		case 2:
+			t.HasCond, t.Cond = true, vt.String(name+"c", L)
+			t.Ctx = &structpb.Struct{Fields: map[string]*structpb.Value{vt.String(name+"k", L): structpb.NewStringValue(vt.String(name+"v", L))}}
+		}
+		return t
+	}
 	var as, bs []VerifK24Tuple
 	var ea, eb []Serializable
 	for i := 0; i < na; i++ {
-		t := VerifK24GenTuple("a"+string(rune('0'+i)), 0, []int{1}, L)
+		t := gen("a" + string(rune('0'+i)))
 		as = append(as, t)
 		ea = append(ea, (*Tuple)(t.Key()))
 	}
 	for i := 0; i < nb; i++ {
-		t := VerifK24GenTuple("b"+string(rune('0'+i)), 0, []int{1}, L)
+		t := gen("b" + string(rune('0'+i)))
 		bs = append(bs, t)
 		eb = append(eb, (*Tuple)(t.Key()))
 	}
 	var ba, bb Builder
 	ba.EncodeArray(ea)
 	bb.EncodeArray(eb)
+	same := na == nb
+	if na == nb {
+		for i := 0; i < na; i++ {
+			s := VerifK24SameTuple(as[i], bs[i]) // evaluated outside the symbolic branch below
+			same = same && s
+		}
+	}
 	vt.Reach("encoded")
 	if ba.Key() == bb.Key() {
 		vt.Assert(na == nb, "tuple lists of different length have the same key bytes")
-		if na == nb {
-			for i := 0; i < na; i++ {
-				vt.Assert(VerifK24SameTuple(as[i], bs[i]), "different tuple lists have the same key bytes")
-			}
-		}
+		vt.Assert(same, "different tuple lists have the same key bytes")
 	}
 }
